@@ -1,6 +1,7 @@
 import XvcPipeline.Props.C10
 import XvcPipeline.Unrepaired
 import XvcPipeline.Gen.WaitPath
+import XvcPipeline.Pool
 /-!
 # C13 — Concurrent step commands never exceed the configured process pool
 
@@ -109,6 +110,80 @@ theorem C13_F6_unrepaired_counterexample :
       σ2.running 0 = true ∧ σ2.running 1 = true := by
   refine ⟨_, _, .start _ 0 (by decide) rfl, .start _ 1 (by simp) (by simp), by simp, by simp⟩
 
+/-! ### the identity of the slot holders does not matter (round 6; `Pool.lean`, table `Gen/PoolOps.lean`)
+
+The pool with its holders spelled out: `holders` has one entry per step that holds a slot, the entry is the step's command.
+`cmd : Nat → Nat` assigns commands to steps and is ARBITRARY: several steps of a pipeline may have the same command string. -/
+
+open Pool in
+/-- a release that erases ONE occurrence gives back exactly one slot and touches no other holder, however many holders are equal:
+    the list gets one shorter, the released command is held once less, every other command as often as before -/
+theorem C13_release_removes_one_holder (hs : List Nat) (c : Nat) (h : c ∈ hs) :
+    (hs.erase c).length + 1 = hs.length ∧ (hs.erase c).count c + 1 = hs.count c ∧
+    ∀ d, d ≠ c → (hs.erase c).count d = hs.count d := by
+  have hp : 0 < hs.count c := List.count_pos_iff.mpr h
+  have hl : 0 < hs.length := List.length_pos_of_mem h
+  refine ⟨?_, ?_, fun d hd => List.count_erase_of_ne hd⟩
+  · rw [List.length_erase_of_mem h]; omega
+  · rw [List.count_erase_self]; omega
+
+open Pool in
+/-- for ANY assignment of commands to steps, equal ones included, any number of steps and any pool size, at every moment of every
+    run of reservations and releases: with a guarded reservation and a release that removes one holder (a counter increment or
+    `erase`), at most `pool` steps hold a slot, the list of holders is exactly as long as the number of holding steps, and every
+    command is listed as often as there are holding steps with that command (no slot lost, none invented) -/
+theorem C13_pool_bound_with_duplicate_commands {rop : Gen.ReserveOp} {op : Gen.ReleaseOp}
+    (hr : rop.guarded = true) (hop : op.removesOne = true) {cmd : Nat → Nat} {n pool : Nat} {σ : PSys}
+    (r : PReach rop op cmd n pool σ) :
+    cntB σ.run n ≤ pool ∧ σ.holders.length = cntB σ.run n ∧
+    ∀ c, σ.holders.count c = cntB (holdsCmd σ.run cmd c) n := by
+  have i := pinv_reach hop r
+  have := len_le_pool hr hop r
+  exact ⟨by rw [← i.len]; exact this, i.len, i.cnt⟩
+
+open Pool in
+/-- over the REGENERATED table of what the code does (`parse_pool_ops`): the reservation is guarded and EVERY release site
+    (`release_process_slot`, the failure block of `step_state_handler`) gives back the slot of one holder; hence the bound
+    of `C13_pool_bound_with_duplicate_commands` holds for the operations the code has, whatever the commands are -/
+theorem C13_generated_pool_ops_keep_bound :
+    Gen.reserveOp.guarded = true ∧ (∀ op ∈ Gen.releaseOps, op.removesOne = true) ∧
+    ∀ op ∈ Gen.releaseOps, ∀ (cmd : Nat → Nat) (n pool : Nat) (σ : PSys),
+      PReach Gen.reserveOp op cmd n pool σ → cntB σ.run n ≤ pool := by
+  have h1 : Gen.reserveOp.guarded = true := by decide
+  have h2 : ∀ op ∈ Gen.releaseOps, op.removesOne = true := by decide
+  exact ⟨h1, h2, fun op ho _ _ _ _ r => (C13_pool_bound_with_duplicate_commands h1 (h2 op ho) r).1⟩
+
+open Pool in
+/-- a release BY VALUE (`holders.retain(|c| c != x)`, i.e. `filter (· != x)`) breaks the bound as soon as two holders are equal:
+    four steps with one command, pool 2; steps 0 and 1 hold the two slots, step 0 releases, BOTH entries go, steps 2 and 3
+    reserve: three steps hold a slot of a pool of two -/
+theorem C13_release_by_value_counterexample :
+    ∃ σ, PReach .guardedPush .removeAllEqual (fun _ => 0) 4 2 σ ∧ cntB σ.run 4 = 3 ∧ σ.holders.length = 2 := by
+  refine ⟨_, .step (.step (.step (.step (.step .init
+      (.reserve _ 0 (by decide) rfl (fun _ => by decide)))
+      (.reserve _ 1 (by decide) (by decide) (fun _ => by decide)))
+      (.release _ 0 (by decide) (by decide)))
+      (.reserve _ 2 (by decide) (by decide) (fun _ => by decide)))
+      (.reserve _ 3 (by decide) (by decide) (fun _ => by decide)), by decide, by decide⟩
+
+/-- non-vacuity of `C13_release_removes_one_holder`: two equal holders, one release, one of them is still listed -/
+example : ([7, 7, 3].erase 7) = [7, 3] ∧ (7 ∈ [7, 7, 3]) := by decide
+
+open Pool in
+/-- non-vacuity of `C13_pool_bound_with_duplicate_commands`: the same history as the counterexample up to the release, with
+    erase-one: the twin keeps its slot, the pool has ONE free slot, so step 2 reserves and step 3 cannot -/
+example : ∃ σ, PReach .guardedDec .counterInc (fun _ => 0) 4 2 σ ∧ cntB σ.run 4 = 2 ∧ σ.holders = [0, 0] ∧
+    ¬ (σ.holders.length < 2) := by
+  refine ⟨_, .step (.step (.step (.step .init
+      (.reserve _ 0 (by decide) rfl (fun _ => by decide)))
+      (.reserve _ 1 (by decide) (by decide) (fun _ => by decide)))
+      (.release _ 0 (by decide) (by decide)))
+      (.reserve _ 2 (by decide) (by decide) (fun _ => by decide)), by decide, by decide, by decide⟩
+
+#print axioms C13_release_removes_one_holder
+#print axioms C13_pool_bound_with_duplicate_commands
+#print axioms C13_generated_pool_ops_keep_bound
+#print axioms C13_release_by_value_counterexample
 #print axioms C13_F6_unrepaired_counterexample
 #print axioms C13_pool_bound
 #print axioms C13_slots_exact
